@@ -66,7 +66,8 @@ Record qpoint := mkQp { qp_attrs : list kv; qp_start : Z; qp_time : Z; qp_count 
 (** [temp]: metricdata.Temporality (1 cumulative, 2 delta; anything else is invalid). *)
 Inductive mdata :=
 | MGauge (l : list dpoint) | MSum (l : list dpoint) (temp : N) (mono : bool)
-| MHist (l : list hpoint) (temp : N) | MExp (l : list epoint) (temp : N) | MSummary (l : list qpoint).
+| MHist (l : list hpoint) (temp : N) | MExp (l : list epoint) (temp : N) | MSummary (l : list qpoint)
+| MNone (* no / an unknown Aggregation value in Metrics.Data *).
 Record metric := mkMetric { m_name : bytes; m_desc : bytes; m_unit : bytes; m_data : mdata }.
 Definition rmetrics := (resource * list (scope * list metric))%type.
 
